@@ -497,8 +497,68 @@ fn negatives<C: Suite>() -> Outcome {
             }
         }
     }
+    // ---- the same value in ANOTHER plausible format or framing (wrong length for this suite) ----
+    for it in items.iter().filter(|i| matches!(i.kind, WKind::Scalar | WKind::Element | WKind::Signature)) {
+        let b = &it.bytes;
+        if it.path != crate::corpus::WPath::Raw {
+            continue;
+        }
+        let mut alts: Vec<(String, Vec<u8>)> = vec![
+            ("zero-byte-appended".into(), [b.clone(), vec![0]].concat()),
+            ("zero-byte-prepended".into(), [vec![0], b.clone()].concat()),
+            ("last-byte-dropped".into(), b[..b.len() - 1].to_vec()),
+            ("first-byte-dropped".into(), b[1..].to_vec()),
+            ("encoded-twice".into(), [b.clone(), b.clone()].concat()),
+        ];
+        let sec1 = matches!(C::NAME, "p256" | "secp256k1" | "secp256k1-tr");
+        if sec1 && it.kind == WKind::Element {
+            if let Some(unc) = sec1_uncompressed::<C>(b) {
+                alts.push(("sec1-uncompressed".into(), unc.clone()));
+                for tag in [6u8, 7] {
+                    let mut h = unc.clone();
+                    h[0] = tag;
+                    alts.push((format!("sec1-hybrid-{tag}"), h));
+                }
+            }
+            alts.push(("x-only".into(), b[1..].to_vec()));
+        }
+        if sec1 && it.kind == WKind::Signature {
+            if b.len() == 64 {
+                // Taproot (x-only R): the SEC1-compressed spelling of the same R, both tags
+                for tag in [2u8, 3] {
+                    alts.push((format!("R-as-sec1-tag-{tag}"), [vec![tag], b.clone()].concat()));
+                }
+            } else {
+                // compressed R: the x-only spelling
+                alts.push(("R-x-only".into(), b[1..].to_vec()));
+                if let Some(unc) = sec1_uncompressed::<C>(&b[..33]) {
+                    alts.push(("R-sec1-uncompressed".into(), [unc, b[33..].to_vec()].concat()));
+                }
+            }
+        }
+        for (label, a) in alts {
+            o.eval(true);
+            match (it.dec)(&a) {
+                None => o.count("alternative_formats_rejected", 1),
+                Some(_) => o.fail(format!("{tag}/{:?}/accepts-other-format/{label}", it.kind), format!("{}: {} accepted ({} bytes; the encoding of this suite has {})", it.name, hex::encode(&a), a.len(), b.len())),
+            }
+        }
+    }
     o.class("negatives");
     o
+}
+
+/// SEC1 uncompressed spelling (04 || x || y) of a compressed point, by the curve crates / libsecp256k1
+fn sec1_uncompressed<C: Suite>(compressed: &[u8]) -> Option<Vec<u8>> {
+    match C::NAME {
+        "p256" => {
+            use p256::elliptic_curve::sec1::ToSec1Point;
+            let pk = p256::PublicKey::from_sec1_bytes(compressed).ok()?;
+            Some(pk.to_sec1_point(false).as_bytes().to_vec())
+        }
+        "secp256k1" | "secp256k1-tr" => Some(secp256k1::PublicKey::from_slice(compressed).ok()?.serialize_uncompressed().to_vec()),
+        _ => None,
+    }
 }
 
 /// Per-suite hand-made element encodings that must be rejected.
